@@ -6,6 +6,7 @@ import (
 	"strings"
 
 	"github.com/gopher-fleece/gleece/v2/common"
+	"github.com/gopher-fleece/gleece/v2/core/annotations"
 	"github.com/gopher-fleece/gleece/v2/core/arbitrators"
 	"github.com/gopher-fleece/gleece/v2/core/metadata"
 	"github.com/gopher-fleece/gleece/v2/core/validators/diagnostics"
@@ -70,6 +71,13 @@ func (v ReceiverValidator) Validate() (diagnostics.EntityDiagnostic, error) {
 	linkValidator, err := NewAnnotationLinkValidator(v.receiver)
 	if err != nil {
 		return receiverDiag, fmt.Errorf("failed to construct an annotation link validator - %v", err)
+	}
+
+	if v.parentController != nil && v.parentController.Struct.Annotations != nil {
+		// The route a method serves begins with its controller's prefix
+		if controllerRoute := v.parentController.Struct.Annotations.GetFirst(annotations.GleeceAnnotationRoute); controllerRoute != nil {
+			linkValidator = linkValidator.WithControllerRoute(controllerRoute.Value)
+		}
 	}
 
 	receiverDiag.AddDiagnostics(linkValidator.Validate())
